@@ -88,16 +88,17 @@ def _tuples_with_square_sum(target, nmax):
 
 
 def dyadic_spectrum(rng):
-    """descending integers x with sum x^2 = 4^a and a prefix (length k) with sum 4^b: x/r, norm_new, S_new are all dyadic,
-    every float operation of svd_theta is exact."""
+    """descending integers x with sum x^2 = 4^a and a prefix (length k) with sum m^2 4^b (m odd): x/r, norm_new = m 2^(b-a),
+    S_new = x / (m 2^b) are all dyadic, every float operation of svd_theta is exact."""
     key = 'dy'
     if key not in _POOL:
         _POOL[key] = {b: _tuples_with_square_sum(4 ** b, 8) for b in (1, 2, 3)}
     for _ in range(200):
         b = rng.choice([1, 2, 2, 3, 3, 3])
-        kept = list(rng.choice(_POOL[key][b]))
-        a = b + rng.choice([0, 1, 1, 2])
-        rest = 4 ** a - 4 ** b
+        m = rng.choice([1, 1, 3, 5])                  # kept part m * (tuple with sum of squares 4^b): norm_new = m 2^b / 2^a
+        kept = [m * v for v in rng.choice(_POOL[key][b])]
+        a = b + rng.choice([0, 1, 1, 2]) if m == 1 else b + rng.choice([2, 3])
+        rest = 4 ** a - m * m * 4 ** b
         disc = []
         mn = kept[-1]
         while rest > 0 and len(kept) + len(disc) < 60:
@@ -408,12 +409,21 @@ def qr_call_problems(rep, chi_max, compute_err):
 
 
 def qr_payloads(ctx, rng, nchunk):
-    nd, ne = ctx.pick(220, 290), ctx.pick(50, 150)
+    nd, ne = ctx.pick(200, 290), ctx.pick(40, 150)
     if not ctx.proof.ok:
         nd, ne = 290, 150
     cases = [c['case'] for c in common.corpus_cases('C15') if c.get('stream') in ('qr-direct', 'qr-engine')]
     cases += [gen_qr_case(rng, ctx.seed * 100000 + i, False) for i in range(nd)]
     cases += [gen_qr_case(rng, ctx.seed * 100000 + 50000 + i, True) for i in range(ne)]
+    # directed: no minimum block increase, tiny chi_max, charge conservation (old bond leg has charge blocks that the new
+    # leg (vL.p0) lacks once the neighbouring bond was truncated)
+    for i in range(12):
+        c = gen_qr_case(rng, ctx.seed * 100000 + 90000 + i, True)
+        c.update({'model': 'xxz', 'conserve': rng.choice(['Sz', 'Sz', 'parity']), 'L': 6, 'min_block_increase': 0,
+                  'expand': rng.choice([0.1, 0.3]), 'imag': False, 'pre_steps': 3, 'pre_chi': rng.choice([4, 8])})
+        c['trunc']['chi_max'] = rng.choice([1, 1, 1, 2])
+        c.pop('expand_0', None)
+        cases.append(c)
     chunks = [cases[i::nchunk] for i in range(nchunk)]
     return [{'kind': 'qr', 'cases': ch} for ch in chunks if ch]
 
@@ -432,8 +442,12 @@ def qr_streams(ctx, payloads, res):
                 ctx.fail('correspondence', 'qr runner failed: ' + x['runner_error'][-500:], {'stream': stream, 'case': c})
                 continue
             if 'error' in x:
-                ctx.fail('oracle', 'decompose_theta_qr_based raised: %s' % x['error'], {'stream': stream, 'case': c, 'impl': x},
-                         match_key='C15:qr-raises:' + x['error'].split(':')[0])
+                # structural condition of the failure: did _qr_theta_Y0 hand back an EMPTY expanded bond?
+                mk = ('C15:decompose_theta_qr_based:empty-Y0-raises' if x.get('empty_Y0') and c['min_block_increase'] == 0
+                      else 'C15:qr-raises:' + x['error'].split(':')[0])
+                ctx.count(stream, c, nontrivial=True)
+                ctx.fail('oracle', 'decompose_theta_qr_based raised: %s%s' % (x['error'], ' (_qr_theta_Y0 returned an empty expanded bond)' if x.get('empty_Y0') else ''),
+                         {'stream': stream, 'case': c, 'impl': x}, match_key=mk)
                 continue
             calls = x['calls'] if c.get('engine') else [x]
             probs, nontriv = [], False
@@ -456,7 +470,8 @@ def qr_streams(ctx, payloads, res):
                 pr = x['norm0']
                 for rep in calls:
                     pr *= rep['renorm']
-                if abs(x['norm'] - pr) > 1e-9 * abs(pr):
+                # (real-time run() renormalises psi afterwards: preserve_norm; the sweep of update_imag does not)
+                if c.get('imag') and abs(x['norm'] - pr) > 1e-9 * abs(pr):
                     probs.append('psi.norm %.12e != product of the reported renormalizations %.12e' % (x['norm'], pr))
                 if not calls:
                     probs.append('engine made no decompose_theta_qr_based call')
